@@ -31,6 +31,7 @@ def run(ctx):
     # ... and __setstate__ of every kind on empty / small / full containers with a smaller and a larger new state
     for gi, (kind, nkeys, newn) in enumerate((k, n, m) for k in ("Bucket", "Set", "BTree", "TreeSet") for n in (0, 3, 16) for m in (5, 40)):
         grid.append((fams[gi % len(fams)], kind, nkeys, (4, 4), ("setstate", newn)))
+    grid += [("II", "Set", 16, (4, 4), "iand"), ("OO", "TreeSet", 16, (4, 4), "iand"), ("LL", "TreeSet", 64, (4, 4), "iand")]
     for it in range(len(grid) + ctx.n(80, 12000)):
         fn = rng.choice(fams)
         kind = rng.choice(["Bucket", "Set", "BTree", "TreeSet", "BTree"])
@@ -43,11 +44,15 @@ def run(ctx):
         forced_n = None
         if isinstance(forced, tuple):
             forced, forced_n = forced
-        opname = forced or rng.choice(["insert", "insert", "update", "setstate", "union", "intersection", "difference", "multiunion", "merge", "pickle", "fromBytes"])
+        opname = forced or rng.choice(["insert", "insert", "update", "setstate", "union", "intersection", "difference", "multiunion", "merge", "pickle", "fromBytes", "iand"])
         if opname == "insert":
             op = ["insert", rng.choice([1, 2 * nkeys + 1, nkeys | 1])]
         elif opname == "update":
             op = ["update", [2 * nkeys + 1 + 2 * j for j in range(rng.choice([1, 5, 20]))]]
+        elif opname == "iand":
+            if kind not in ("Set", "TreeSet") or nkeys == 0:
+                continue
+            op = ["iand", [k for k in keys if k % 4 == 0] + [1]]
         elif opname == "setstate":
             op = ["setstate", [3 * j for j in range(forced_n or rng.choice([1, 5, 40]))]]
         elif opname in ("union", "intersection", "difference"):
